@@ -147,6 +147,7 @@ func Run(c *hx.Ctx) {
 	close(ch)
 	wg.Wait()
 	synthCores(c, coreRng)
+	deepSynth(c, coreRng.Fork())
 	knownReplays(c)
 }
 
@@ -290,6 +291,9 @@ type imgCtx struct {
 	desc string
 	// tolerated: errors are acceptable on this image (unsupported feature in use)
 	tolerated bool
+	// the image's device and a private generator for the deeper correspondence cases (deep.go)
+	dev *memdev.Dev
+	rng *hx.Rng
 }
 
 // verdict helpers --------------------------------------------------------------------------
@@ -333,7 +337,7 @@ func runImage(c *hx.Ctx, id string, o imgOpts, r *hx.Rng) {
 	c.Stat("images")
 	c.Stat("bs=" + fmt.Sprint(o.bs))
 	c.Stat("inodesize=" + fmt.Sprint(o.inodeSize))
-	x := &imgCtx{c: c, id: id, o: o, t: t, desc: desc, tolerated: o.unsupported != ""}
+	x := &imgCtx{c: c, id: id, o: o, t: t, desc: desc, tolerated: o.unsupported != "", dev: dev, rng: r.Fork()}
 
 	var fsys *ext4.FileSystem
 	res := guard(func() error {
@@ -361,6 +365,7 @@ func runImage(c *hx.Ctx, id string, o imgOpts, r *hx.Rng) {
 	x.fsys = fsys
 	x.geo = fsys.VerifGeometry()
 	x.checkTree()
+	x.inodeLocCases()
 	if len(dev.Log) != 0 {
 		x.fail("nowrite", "-", "reading wrote to the device")
 	}
@@ -800,6 +805,7 @@ func (x *imgCtx) checkNode(nid string, n *node) {
 			})
 			x.dataVerdict(sub, "aligned Read", label, n, res, got, nExt, firstHole, false, tolerate)
 		}
+		x.sparseReadCase(nid, n, nExt, firstHole >= 0)
 	}
 	// ---- xattrs
 	if (n.xattrs != nil || n.kind != kDir || strings.Count(p, "/") < 2) && c.Want(x.id+"/"+nid+"/xattr") {
@@ -853,6 +859,16 @@ func (x *imgCtx) checkNode(nid string, n *node) {
 	}
 }
 
+// inUnwritten: does byte d of the file lie in a preallocated (unwritten) range?
+func (x *imgCtx) inUnwritten(n *node, d int) bool {
+	for _, u := range n.unwritten {
+		if d >= u[0]*x.o.bs && d < (u[1]+1)*x.o.bs {
+			return true
+		}
+	}
+	return false
+}
+
 func clip(s string) string {
 	if len(s) > 80 {
 		return s[:80] + "..."
@@ -863,6 +879,12 @@ func clip(s string) string {
 func (x *imgCtx) dataVerdict(sub, how, label string, n *node, res result, got []byte, nExt, firstHole int, unaligned bool, tolerate func(string, result) bool) {
 	c := x.c
 	hasHole := firstHole >= 0
+	if len(n.unwritten) > 0 && res.err != nil && res.panic == "" && !res.hang {
+		// a file with unwritten extents may be refused with an error (never wrong data)
+		x.ok(sub)
+		c.Stat("unwritten-refused")
+		return
+	}
 	if res.bad() {
 		if tolerate(sub, res) {
 			return
@@ -883,6 +905,9 @@ func (x *imgCtx) dataVerdict(sub, how, label string, n *node, res result, got []
 		tag := "-"
 		if hasHole && d >= firstHole*x.o.bs {
 			tag = "ext4-hole-not-zero" // wrong bytes start in or after the first unmapped block
+		}
+		if x.inUnwritten(n, d) {
+			tag = "ext4-unwritten-extent-read-as-data" // wrong bytes start inside a preallocated range
 		}
 		x.fail(sub, tag, fmt.Sprintf("%s: %s returned %d bytes, want %d; first difference at byte %d (block %d; first unmapped block %d)", label, how, len(got), len(n.content), d, d/x.o.bs, firstHole))
 		return
